@@ -147,7 +147,8 @@ func runC09(c *mon.Ctx) {
 		"cases vary mode (permanent/temporary, expires_in), dc id, position of the server's key in the client's key list, req_pq preludes the server must tolerate " +
 		"(fake legacy/multi request first, duplicated request), zero prefixes forced into nonce/new_nonce/server_nonce, auth keys forced to have a leading zero byte, delivery jitter; " +
 		"a reference model re-derives new_nonce, g, p, g_a, g_b from the client's wire with the server's private key, finds the secret exponents in the logged random reads " +
-		"(verified by g^x == g_x) and recomputes auth_key, key id, salt and new_nonce_hash1; distinct non-trivial = (mode, dc class, prelude, key position, zero-prefix variant, RSA_PAD retries, key leading zero)")
+		"(verified by g^x == g_x) and recomputes auth_key, key id, salt and new_nonce_hash1; second arm (DH prime choice): the honest server is the scripted reference server " +
+		"with every committed 2048-bit safe prime x every g in 2..7 admissible for it x perm/temp, random dc; distinct non-trivial = (mode, dc class, prelude, key position, zero-prefix variant, RSA_PAD retries, key leading zero)")
 	c.Assume("refmodel (TL, RSA_PAD decode, tmp_aes, SHA1 hashes) transcribes core.telegram.org/mtproto/auth_key; shared primitives: math/big, crypto/aes, crypto/sha1, crypto/sha256")
 	c.Assume("TestServerRNG fixes pq and dh_prime on the server side: the DH prime choice dimension is covered in C10 where the harness plays the server")
 	d, err := loadData()
@@ -166,7 +167,13 @@ func runC09(c *mon.Ctx) {
 	stats := map[string]int64{}
 	bump := func(k string) { mu.Lock(); stats[k]++; mu.Unlock() }
 
-	parallel(n+nForce, 16, func(i int) {
+	refCases := c09RefCases(c, d)
+	c.Set("refserver_cases", len(refCases))
+	parallel(n+nForce+len(refCases), 16, func(i int) {
+		if i >= n+nForce {
+			runC09RefCase(c, d, refCases[i-n-nForce], bump)
+			return
+		}
 		r := c.RandN("c09", i)
 		cs := c09Gen(r, i)
 		if i >= n {
@@ -372,7 +379,7 @@ func runC09(c *mon.Ctx) {
 	for k, v := range stats {
 		c.Set(k, v)
 	}
-	if stats["reference_recomputations"] == 0 {
+	if stats["reference_recomputations"] == 0 || stats["refserver_recomputations"] == 0 {
 		c.Inconclusive("no exchange was recomputed by the reference model")
 	}
 }
